@@ -1646,7 +1646,9 @@ class Engine(NumpyTheory, Evaluator):
         info['obligations'] = len(self.obs) - start
         missing = [lab for pref, lab, e in c.cuts if (c.key, lab) not in getattr(self, '_cuts_hit', set())]
         if missing:
-            raise front.AttachError('%s: stepping-stone hints %s refer to statements that no longer exist' % (c.key, missing))
+            # a hint that no longer attaches is simply not used (hints can only help a proof, never make one): the obligations that
+            # needed it will show up as not discharged
+            info['hints_not_attached'] = missing
         return info
 
     def finish_path(self, c, f, fn, entry_env):
